@@ -206,6 +206,12 @@ static void exception_handler(int sig, siginfo_t * info, void *context)
     pthread_mutex_lock(&exception_handler_mutex);
     struct sigaction current_handler;
     sigaction(sig, &old_handler, &current_handler);
+    // All signals are blocked while this handler runs, the signal must be
+    // unblocked for the default action to take place when it is raised.
+    sigset_t unblock;
+    sigemptyset(&unblock);
+    sigaddset(&unblock, sig);
+    pthread_sigmask(SIG_UNBLOCK, &unblock, NULL);
     raise(sig);
     sigaction(sig, &current_handler, NULL);
     pthread_mutex_unlock(&exception_handler_mutex);
